@@ -199,7 +199,9 @@ fn check_vw_line(inp: &[P], out: &[P], idx: Option<&[usize]>, cx: &Ctx, obs: &mu
     // with repeated points the subsequence match is not unique: the area test is only decisive with explicit indices
     // or when all input points are distinct
     let distinct = {
-        let mut s: Vec<(u64, u64)> = inp.iter().map(|p| (p.0.to_bits(), p.1.to_bits())).collect();
+        // (a closed ring repeats its first point as its last: that single repetition leaves the match unique)
+        let body = if inp.len() >= 2 && inp.first() == inp.last() { &inp[..inp.len() - 1] } else { inp };
+        let mut s: Vec<(u64, u64)> = body.iter().map(|p| (p.0.to_bits(), p.1.to_bits())).collect();
         s.sort();
         s.windows(2).all(|w| w[0] != w[1])
     };
@@ -353,8 +355,12 @@ impl Property for C09 {
                 let polys: Vec<Polygon<f64>> = if k == 2 {
                     vec![Polygon::new(to_ls(&c.parts[0]), c.parts[1..].iter().map(|p| to_ls(p)).collect())]
                 } else {
-                    c.parts.iter().map(|p| Polygon::new(to_ls(p), vec![])).collect()
+                    // multipolygon members: every second part becomes a hole of the part before it
+                    c.parts.chunks(2).map(|ch| Polygon::new(to_ls(&ch[0]), ch[1..].iter().map(|p| to_ls(p)).collect())).collect()
                 };
+                if k == 3 && polys.iter().any(|p| !p.interiors().is_empty()) {
+                    obs.label("multipolygon-member-with-hole");
+                }
                 let rings_of = |p: &Polygon<f64>| -> Vec<Vec<P>> { std::iter::once(p.exterior()).chain(p.interiors().iter()).map(from_ls).collect() };
                 if polys.iter().flat_map(|p| rings_of(p)).any(|r| (4..=6).contains(&r.len())) {
                     obs.label("ring-at-size-limit");
